@@ -16,7 +16,8 @@ KINDS = ['task', 'task', 'task', 'analysis', 'regress']
 
 
 class AlgSpec:
-    def __init__(self, pkg, name, kind, ver, svs, inputs, feedback=None):
+    def __init__(self, pkg, name, kind, ver, svs, inputs, feedback=None, where='cluster'):
+        self.where = where  # what Algorithm.where() answers: cluster | auto | cloud
         self.pkg, self.name, self.kind, self.ver = pkg, name, kind, tuple(ver)
         self.svs = svs  # [(svname, ver, [(vname, ver), ...]), ...]
         self.inputs = inputs  # [(alg_full, level, svname|None, vname|None)]
@@ -33,13 +34,13 @@ class AlgSpec:
     def to_json(self):
         return {'pkg': self.pkg, 'name': self.name, 'kind': self.kind, 'ver': list(self.ver),
                 'svs': [[s, list(v), [[n, list(vv)] for n, vv in vals]] for s, v, vals in self.svs],
-                'inputs': [list(i) for i in self.inputs], 'feedback': [list(i) for i in self.feedback]}
+                'inputs': [list(i) for i in self.inputs], 'feedback': [list(i) for i in self.feedback], 'where': self.where}
 
     @staticmethod
     def from_json(d):
         return AlgSpec(d['pkg'], d['name'], d['kind'], d['ver'],
                        [(s, tuple(v), [(n, tuple(vv)) for n, vv in vals]) for s, v, vals in d['svs']],
-                       [tuple(i) for i in d['inputs']], [tuple(i) for i in d['feedback']])
+                       [tuple(i) for i in d['inputs']], [tuple(i) for i in d['feedback']], d.get('where', 'cluster'))
 
 
 class Spec:
@@ -127,7 +128,8 @@ def generate(ch, max_pkgs=4, max_algs=3, max_total=8, feedback=True, events=Fals
                     ref = (y.full, 'val', ysv[0], ysv[2][ch.choose('gen.inval', len(ysv[2]))][0])
                 if ref not in inputs:
                     inputs.append(ref)
-        algs.append(AlgSpec(p, an, kind, _ver(ch, 'gen.aver'), svs, inputs))
+        algs.append(AlgSpec(p, an, kind, _ver(ch, 'gen.aver'), svs, inputs,
+                            where=['cluster', 'cluster', 'auto', 'auto', 'cloud'][ch.choose('gen.where', 5)]))
     if feedback:
         fed = set()
         for i, a in enumerate(algs[:-1]):
@@ -303,7 +305,7 @@ class _AlgMixin:
         return self._refs(self.a.inputs)
 
     def where(self):
-        return dawgie.Distribution.cluster
+        return {'cluster': dawgie.Distribution.cluster, 'auto': dawgie.Distribution.auto, 'cloud': dawgie.Distribution.cloud}[getattr(self.a, 'where', 'cluster')]
 
 
 class GenAlgorithm(_AlgMixin, dawgie.Algorithm):
